@@ -341,7 +341,11 @@ func e2eThreads(c *e2eCtx) error {
 				cfg := u.cfg
 				cfg.Threads = x.threads
 				proj.WriteConfig(d, cfg)
-				run := proj.RunGoat(raceBin, d, []string{"GORACE=halt_on_error=0", "GOMAXPROCS=16"}, x.cmd)
+				args := []string{x.cmd}
+				if k%2 == 1 { // verbose: the workers log too
+					args = []string{"-v", x.cmd}
+				}
+				run := proj.RunGoat(raceBin, d, []string{"GORACE=halt_on_error=0", "GOMAXPROCS=16"}, args...)
 				os.RemoveAll(d)
 				mu.Lock()
 				raceRuns++
